@@ -136,6 +136,7 @@ class C05(Base):
         cs = self.corpus()
         dist = {}
         self.ref = {}
+        self.loose = set()      # corrupted frames: several faults may be present, compare the error by class only
         smalls, _ = small_valid(rng, tier, 6 if tier == 'quick' else 40, 8 if tier == 'quick' else 11)
         seen = set()
         for fam, p, b in smalls:
@@ -174,6 +175,8 @@ class C05(Base):
                         at = atoms_of(v, cuts, [] if huge else [0] + [c for c in cuts if rng.random() < 0.5])
                     c = 'sched %s %s %s' % (fam, at, tail)
                     cs.append(c)
+                    if tag == 'mut':
+                        self.loose.add(c)
                     hist(dist, 'rand:' + tag.split(':')[0])
                     self.want_ref(cs, fam, v, tail)
         return cs, dist
@@ -239,6 +242,13 @@ class C05(Base):
             if f.get('body') != pk.hx(b[fi[0]:fi[0] + fi[1]]):
                 return 'returned body is not the raw body bytes'
         return None
+
+    def project(self, case, line):
+        if case in self.loose:
+            f = fields(line)
+            r = f.get('res', '')
+            return 'res=%s;' % r.split(' ')[0] + ';'.join('%s=%s' % (k, f.get(k, '')) for k in ('total', 'body', 'pend', 'rpend'))
+        return line
 
     def nontrivial(self, case, line):
         a = case.split()[2]
